@@ -332,19 +332,23 @@ def stage (s : FS) (st : Staged) (r : DRec) : FS :=
   { s with txn := some { st with recs := r :: st.recs,
                                  tindex := (r.oid, s.pos + recsSize st.recs + st.thl) :: st.tindex } }
 
+/-- the tid of a new transaction: the explicit one, or `laterThan(now, _ts)` -/
+def beginTid (s : FS) (tid? : Option Nat) (now : Nat) : Nat :=
+  match tid? with
+  | some t => t
+  | none => Tid.newTid s.ts now
+
 /-- `tpc_begin(txn, tid, status)` + `_begin` -/
 def begin (s : FS) (tid? : Option Nat) (now status : Nat) (u d e : Bytes) : FS × Res :=
   match s.txn with
   | some _ => (s, .error .busy)
   | none =>
-    let tid := match tid? with
-      | some t => t
-      | none => Tid.newTid s.ts now
-    let st : Staged := ⟨tid, status, u, d, e, [], [], false⟩
-    let s' := { s with ts := tid, txn := some st }
-    if 65535 < st.thl ∧ (65535 < u.length ∨ 65535 < d.length ∨ 65535 < e.length) then
-      (s', .error .fileStorageError)
-    else (s', .ok ())
+    let st : Staged := ⟨beginTid s tid? now, status, u, d, e, [], [], false⟩
+    -- the transaction is registered before `_begin` checks the lengths: on error the caller aborts
+    ({ s with ts := st.tid, txn := some st },
+     if 65535 < st.thl ∧ (65535 < u.length ∨ 65535 < d.length ∨ 65535 < e.length) then
+       .error .fileStorageError
+     else .ok ())
 
 /-- tid of the committed record at `old` differs from `serial` (`oldserial != committed_tid`) -/
 def serialMismatch (s : FS) (old serial : Nat) : Bool :=
@@ -397,28 +401,30 @@ def dataFind (base : Nat) (recs : List DRec) (oid : Nat) (data : Option Bytes) :
       | none => .error .typeError
       | some d' => if d.length ≠ d'.length then .ok 0 else if d = d' then .ok p else .ok 0
 
+/-- the back pointer `restore` computes from its `prev_txn` hint (0: none) -/
+def restorePrevPos (s : FS) (oid : Nat) (data : Option Bytes) (prevTxn : Option Nat) : Except OpErr Nat :=
+  match prevTxn with
+  | none => .ok 0
+  | some pt =>
+    match txnFind pt s.log with
+    | none => .ok 0                                      -- just a hint: UndoError is swallowed
+    | some (t, older) => dataFind (logEnd older + t.hdrLen) t.recs oid data
+
+/-- what `restore` writes after the data header -/
+def restoreBody (pp : Nat) (data : Option Bytes) : Body :=
+  if pp ≠ 0 then .back pp
+  else match data with
+    | none => .back 0
+    | some d => .data d
+
 /-- `restore(oid, serial, data, '', prev_txn, txn)` -/
 def restore (s : FS) (oid serial : Nat) (data : Option Bytes) (prevTxn : Option Nat) : FS × Res :=
   match s.txn with
   | none => (s, .error .storageTxn)
   | some st =>
-    let prevPos : Except OpErr Nat :=
-      match prevTxn with
-      | none => .ok 0
-      | some pt =>
-        match txnFind pt s.log with
-        | none => .ok 0                                      -- just a hint: UndoError is swallowed
-        | some (t, older) => dataFind (logEnd older + t.hdrLen) t.recs oid data
-    match prevPos with
+    match restorePrevPos s oid data prevTxn with
     | .error e => (s, .error e)
-    | .ok pp =>
-      let old := idxGet s.index oid
-      let body : Body :=
-        if pp ≠ 0 then .back pp
-        else match data with
-          | none => .back 0
-          | some d => .data d
-      (stage s st ⟨oid, serial, old, body⟩, .ok ())
+    | .ok pp => (stage s st ⟨oid, serial, idxGet s.index oid, restoreBody pp data⟩, .ok ())
 
 /-- records of a transaction with their offsets, newest first -/
 def withPos (base : Nat) : List DRec → List (DRec × Nat)
@@ -597,6 +603,7 @@ structure Inv (s : FS) : Prop where
   log : LogInv s.log
   pos : s.pos = logEnd s.log
   index : ∀ oid, idxGet s.index oid = lastPos oid s.log
+  idxpos : ∀ kv ∈ s.index, kv.2 ≠ 0
   ltid : s.ltid = lastTid s.log
   ts : s.ltid ≤ s.ts
   staged : ∀ st, s.txn = some st → StagedInv s st
